@@ -8,6 +8,7 @@ import (
 
 	"github.com/emitter-io/emitter/verif/core"
 	vcrdt "github.com/emitter-io/emitter/verif/drivers/crdt"
+	"github.com/emitter-io/emitter/verif/drivers/mqttc"
 	"github.com/emitter-io/emitter/verif/drivers/session"
 	"github.com/emitter-io/emitter/verif/drivers/trie"
 )
@@ -18,6 +19,7 @@ var checks = map[string]func(*core.Ctx){
 	"C04": vcrdt.Run,
 	"C07": session.RunC07,
 	"C08": session.RunC08,
+	"C16": mqttc.Run,
 	"C18": session.RunC18,
 }
 
